@@ -30,6 +30,12 @@ import whad.ble.stack.llm as llmmod
 import whad.ble.crypto as cryptomod
 from whad.ble.stack.smp import Pairing, CryptographicDatabase, SMPLayer, SM_Peer
 from whad.ble.stack.smp.parameters import PairingCustomFunctions
+from whad.ble.stack.att import ATTLayer
+from whad.ble.stack.gatt import GattLayer
+
+# the connectors attach a GATT layer to ATT (Central: GattClient, Peripheral: GattServer); a bare BleStack has none
+# and LinkLayer.on_disconnect expects one
+ATTLayer.add(GattLayer)
 
 REAL_P256 = cryptomod.generate_p256_keypair
 REAL_DH = cryptomod.generate_diffie_hellman_shared_secret
@@ -228,11 +234,11 @@ class Conn:
         self.connection = connection
 
     def send_data_pdu(self, data, conn_handle=None, encrypt=None):
-        self.out.append(bytes(data))
+        self.out.append((conn_handle, bytes(data)))
         return True
 
     def send_ctrl_pdu(self, pdu, conn_handle=None, encrypt=None):
-        self.out.append(bytes(pdu))
+        self.out.append((conn_handle, bytes(pdu)))
         return True
 
     def set_encryption(self, conn_handle=None, enabled=True, ll_key=None, ll_iv=None, key=None, rand=None, ediv=None):
@@ -295,8 +301,11 @@ _L2CAP_SEQ = [100]
 
 
 def run_case(case):
-    """One case = one pairing on fresh stacks, or ("seq") several pairings through the SAME two stacks:
-    step mode "new" = on a new connection handle, "same" = the current connection is paired again."""
+    """One case = one pairing on fresh stacks, or ("seq") several pairings through the SAME two stacks.
+    Step mode "new" = on a new connection handle, "same" = the current connection is paired again,
+    "reconnect" = the current connection is closed (on_disconnection) and opened again with the same handle.
+    A step with "concurrent": true (mode "new") runs INTERLEAVED with the previous step: both procedures are
+    started before any PDU is delivered and their PDUs alternate on the wire."""
     global W
     from whad.ble.stack.l2cap import L2CAPLayer
     steps = case["seq"] if "seq" in case else [dict(case, mode="new")]
@@ -306,58 +315,91 @@ def run_case(case):
     a_r = BDAddress(ADDR_R[0], random=ADDR_R[1])
     k0, pk0 = REAL_P256(PRIV[0])
     k1, pk1 = REAL_P256(PRIV[1])
-    dbs = [CryptographicDatabase(), CryptographicDatabase()]
-    h, smp_i, smp_r = 0, None, None
-    runs = []
+    shared_dbs = [CryptographicDatabase(), CryptographicDatabase()]
+    conns = {}            # handle -> {"smp": [smp_i, smp_r], "db": [db_i, db_r]}
+    cur, next_h = None, 0
+
+    def connect(h, dbs):
+        for side, stack in ((0, sc), (1, sp)):
+            W.side = side
+            # contextual layer names: Layer.instantiate never writes INSTCOUNT back (every instance after the
+            # second is named l2cap#1); give each L2CAP instance its own name from outside
+            _L2CAP_SEQ[0] += 1
+            L2CAPLayer.INSTCOUNT = _L2CAP_SEQ[0]
+            if side == 0:
+                stack.on_connection(h, a_i, a_r)
+            else:
+                stack.on_connection(h, a_r, a_i)
+        smp_i, smp_r = cc.connection.smp, cp.connection.smp
+        smp_i.set_security_database(dbs[0])
+        smp_r.set_security_database(dbs[1])
+        smp_r.set_responder_role()
+        conns[h] = {"smp": [smp_i, smp_r], "db": dbs}
+
+    # batches of procedures that run interleaved
+    batches = []
     for k, step in enumerate(steps):
-        W = World(step, salt=k)
-        # real DH values for the fixed key pairs (to recognise the shared secret and the public X coordinates)
-        W.table[REAL_DH(k0, pk1)] = ["Dh"]
-        W.table[bytes.fromhex("{:064x}".format(pk0.public_numbers().x))] = ["Pkx", 0]
-        W.table[bytes.fromhex("{:064x}".format(pk1.public_numbers().x))] = ["Pkx", 1]
-        if step.get("mode", "new") == "new" or smp_i is None:
-            h += 1
-            for side, stack in ((0, sc), (1, sp)):
-                W.side = side
-                # contextual layer names: Layer.instantiate never writes INSTCOUNT back (every instance after the
-                # second is named l2cap#1); give each L2CAP instance its own name from outside
-                _L2CAP_SEQ[0] += 1
-                L2CAPLayer.INSTCOUNT = _L2CAP_SEQ[0]
-                if side == 0:
-                    stack.on_connection(h, a_i, a_r)
-                else:
-                    stack.on_connection(h, a_r, a_i)
-            smp_i, smp_r = cc.connection.smp, cp.connection.smp
-            smp_i.set_security_database(dbs[0])
-            smp_r.set_security_database(dbs[1])
-            smp_r.set_responder_role()
-        smp_r.pairing_parameters = mkpairing(step["r"], 1)
-        db0 = [len(getattr(d, "_CryptographicDatabase__entries")) for d in dbs]
-        enc0 = [len(cc.enc), len(cp.enc)]
-        excs = [[], []]
+        if step.get("concurrent") and batches:
+            batches[-1].append((k, step))
+        else:
+            batches.append([(k, step)])
+    runs = [None] * len(steps)
+    for batch in batches:
+        worlds, meta = {}, {}
+        for k, step in batch:
+            W = World(step, salt=k)
+            # real DH values for the fixed key pairs (to recognise the shared secret and the public X coordinates)
+            W.table[REAL_DH(k0, pk1)] = ["Dh"]
+            W.table[bytes.fromhex("{:064x}".format(pk0.public_numbers().x))] = ["Pkx", 0]
+            W.table[bytes.fromhex("{:064x}".format(pk1.public_numbers().x))] = ["Pkx", 1]
+            mode = step.get("mode", "new")
+            # interleaved procedures write to their own databases so that their entries can be told apart
+            dbs = shared_dbs if len(batch) == 1 else [CryptographicDatabase(), CryptographicDatabase()]
+            if mode == "new" or cur is None:
+                next_h += 1
+                cur = next_h
+                connect(cur, dbs)
+            elif mode == "reconnect":
+                for side, stack in ((0, sc), (1, sp)):
+                    W.side = side
+                    stack.on_disconnection(cur, 0x13)
+                connect(cur, conns[cur]["db"])
+            h = cur
+            worlds[h] = W
+            smp_i, smp_r = conns[h]["smp"]
+            smp_r.pairing_parameters = mkpairing(step["r"], 1)
+            meta[h] = {"k": k, "step": step, "excs": [[], []],
+                       "db0": [len(getattr(d, "_CryptographicDatabase__entries")) for d in conns[h]["db"]],
+                       "enc0": [len(cc.enc), len(cp.enc)]}
         nmsg, timeout = 0, False
         signal.signal(signal.SIGALRM, _alarm)
-        signal.alarm(int(step.get("watchdog", 10)))
+        signal.alarm(int(batch[0][1].get("watchdog", 10)) * len(batch))
         try:
-            W.side = 0
-            try:
-                smp_i.initiate_pairing(parameters=mkpairing(step["i"], 0))
-            except Watchdog:
-                raise
-            except Exception as e:   # noqa
-                excs[0].append(exc_info(e))
-            while (cc.out or cp.out) and nmsg < 4000:
+            for h in sorted(worlds):
+                W = worlds[h]
+                W.side = 0
+                try:
+                    conns[h]["smp"][0].initiate_pairing(parameters=mkpairing(meta[h]["step"]["i"], 0))
+                except Watchdog:
+                    raise
+                except Exception as e:   # noqa
+                    meta[h]["excs"][0].append(exc_info(e))
+            while (cc.out or cp.out) and nmsg < 4000 * len(batch):
                 for src, dst_stack, dst in ((cc, sp, 1), (cp, sc, 0)):
                     if src.out:
-                        raw = src.out.popleft()
+                        hh, raw = src.out.popleft()
                         nmsg += 1
+                        if hh not in worlds:
+                            continue
+                        W = worlds[hh]
                         W.side = dst
+                        W.nmsg = getattr(W, "nmsg", 0) + 1
                         try:
-                            deliver(dst_stack, raw, h)
+                            deliver(dst_stack, raw, hh)
                         except Watchdog:
                             raise
                         except Exception as e:   # noqa
-                            excs[dst].append(exc_info(e))
+                            meta[hh]["excs"][dst].append(exc_info(e))
             if cc.out or cp.out:
                 timeout = True
         except Watchdog:
@@ -366,43 +408,49 @@ def run_case(case):
             signal.alarm(0)
         cc.out.clear()
         cp.out.clear()
-        sides = []
-        for side, (smp, conn, stack) in enumerate(((smp_i, cc, sc), (smp_r, cp, sp))):
-            st = smp.state
-            W.side = side
-            llc = stack.get_layer('ll').state.connections.get(h, {})
-            d = {"state": sget(st, "state"), "fail": sget(st, "last_failure"),
-                 "exc": excs[side][:3], "method": sget(st, "method"),
-                 "tk": W.resolve(sget(st, "tk")), "stk": W.resolve(sget(st, "stk")), "ltk": W.resolve(sget(st, "ltk")),
-                 "rand": W.resolve(sget(st, "rand")), "ediv": sget(st, "ediv"),
-                 "irk": W.resolve(sget(st, "irk")), "csrk": W.resolve(sget(st, "csrk")),
-                 "done": bool(smp.is_pairing_done()), "failed": bool(sget(st, "last_failure") is not None),
-                 "enc": conn.enc[enc0[side]:], "db": db_dump(dbs[side])[db0[side]:],
-                 "ll_key": W.resolve(llc.get("encryption_key")), "encrypted": bool(llc.get("encrypted")),
-                 "ll_rand": W.ll_rand[side],
-                 "shown": W.shown[side][:50], "asked": W.asked[side][:50],
-                 "trace": [t[0] for t in W.trace[side]]}
-            sides.append(d)
-        preq = next((t[1] for t in W.trace[0] if t[0] == 1), None)
-        pres = next((t[1] for t in W.trace[1] if t[0] == 2), None)
-        wire = []
-        for side in (0, 1):
-            ks = {}
-            for op, hx in W.trace[side]:
-                b = bytes.fromhex(hx)[1:]
-                if op == 6:
-                    ks["ltk"] = W.resolve(b[::-1])
-                elif op == 7:
-                    ks["ediv"] = b[0] | (b[1] << 8)
-                    ks["rand"] = W.resolve(b[2:][::-1])
-                elif op == 8:
-                    ks["irk"] = W.resolve(b[::-1])
-                elif op == 9:
-                    ks["addr"] = b.hex()
-                elif op == 10:
-                    ks["csrk"] = W.resolve(b[::-1])
-            wire.append(ks)
-        runs.append({"sides": sides, "preq": preq, "pres": pres, "wire": wire, "nmsg": nmsg, "timeout": timeout, "handle": h})
+        for h in sorted(worlds):
+            W = worlds[h]
+            m = meta[h]
+            sides = []
+            for side, (conn, stack) in enumerate(((cc, sc), (cp, sp))):
+                smp = conns[h]["smp"][side]
+                st = smp.state
+                W.side = side
+                llc = stack.get_layer('ll').state.connections.get(h, {})
+                d = {"state": sget(st, "state"), "fail": sget(st, "last_failure"),
+                     "exc": m["excs"][side][:3], "method": sget(st, "method"),
+                     "tk": W.resolve(sget(st, "tk")), "stk": W.resolve(sget(st, "stk")), "ltk": W.resolve(sget(st, "ltk")),
+                     "rand": W.resolve(sget(st, "rand")), "ediv": sget(st, "ediv"),
+                     "irk": W.resolve(sget(st, "irk")), "csrk": W.resolve(sget(st, "csrk")),
+                     "done": bool(smp.is_pairing_done()), "failed": bool(sget(st, "last_failure") is not None),
+                     "enc": [x for x in conn.enc[m["enc0"][side]:] if x["handle"] == h],
+                     "db": db_dump(conns[h]["db"][side])[m["db0"][side]:],
+                     "ll_key": W.resolve(llc.get("encryption_key")), "encrypted": bool(llc.get("encrypted")),
+                     "ll_rand": W.ll_rand[side],
+                     "shown": W.shown[side][:50], "asked": W.asked[side][:50],
+                     "trace": [t[0] for t in W.trace[side]]}
+                sides.append(d)
+            preq = next((t[1] for t in W.trace[0] if t[0] == 1), None)
+            pres = next((t[1] for t in W.trace[1] if t[0] == 2), None)
+            wire = []
+            for side in (0, 1):
+                ks = {}
+                for op, hx in W.trace[side]:
+                    b = bytes.fromhex(hx)[1:]
+                    if op == 6:
+                        ks["ltk"] = W.resolve(b[::-1])
+                    elif op == 7:
+                        ks["ediv"] = b[0] | (b[1] << 8)
+                        ks["rand"] = W.resolve(b[2:][::-1])
+                    elif op == 8:
+                        ks["irk"] = W.resolve(b[::-1])
+                    elif op == 9:
+                        ks["addr"] = b.hex()
+                    elif op == 10:
+                        ks["csrk"] = W.resolve(b[::-1])
+                wire.append(ks)
+            runs[m["k"]] = {"sides": sides, "preq": preq, "pres": pres, "wire": wire,
+                            "nmsg": getattr(W, "nmsg", 0) if len(batch) > 1 else nmsg, "timeout": timeout, "handle": h}
     if "seq" in case:
         return {"runs": runs}
     return runs[0]
